@@ -4,6 +4,7 @@ CONSTANTS
   CogThetas <- QuickThetas
   BpKs = {2, 4, 9}
   CorrSizes = {4, 5}
+  RectSizes = {4}
   MaxPad = 3
   Emit = TRUE
 INVARIANT CoGIsFirstMoment
